@@ -143,7 +143,7 @@ def gen_config(rng, profile="any", tier="quick"):
     if profile == "C08":
         kinds = ["fixed"]
     elif profile == "C19":
-        kinds = ["single", "single", "single", "topn"]
+        kinds = ["single", "single", "single", "topn", "fixed"]
     elif profile == "C16":
         kinds = ["topn", "sma", "invvol", "single"]
     kind = rng.choice(kinds)
@@ -453,8 +453,11 @@ def mask_ids(s):
     return _HEX.sub("<id>", s)
 
 
-def build_session(cfg, dirpath, shared_source=None):
-    """Construct the real session over the CSV directory.  Returns (session, signals, universe)."""
+def build_session(cfg, dirpath, shared_source=None, shared_inputs=None):
+    """Construct the real session over the CSV directory.  Returns (session, signals, universe).
+
+    shared_inputs (a dict) lets several sessions re-use the user-level input objects - the universe and the
+    (stateless) alpha model with its weights dictionary - the way a user who builds them once would."""
     from qstrader.trading.backtest import BacktestTradingSession
     from qstrader.asset.universe.static import StaticUniverse
     from qstrader.asset.universe.dynamic import DynamicUniverse
@@ -469,7 +472,9 @@ def build_session(cfg, dirpath, shared_source=None):
     from qstrader.signals.vol import VolatilitySignal
     S, E = ts(cfg["start"]), ts(cfg["end"])
     u = cfg["universe"]
-    if u["kind"] == "static":
+    if shared_inputs is not None and "universe" in shared_inputs:
+        universe = shared_inputs["universe"]
+    elif u["kind"] == "static":
         universe = StaticUniverse(list(u["assets"]))
     else:
         tzs = u.get("tz") or {}
@@ -503,7 +508,14 @@ def build_session(cfg, dirpath, shared_source=None):
         else:
             sigs = {"vol": VolatilitySignal(S, universe, lookbacks=[a["lookback"]])}
         signals = SignalsCollection(sigs, data_handler)
-    alpha = make_alpha(cfg, universe, signals, data_handler)
+    if shared_inputs is not None:
+        shared_inputs.setdefault("universe", universe)
+    if shared_inputs is not None and "alpha" in shared_inputs and signals is None:
+        alpha = shared_inputs["alpha"]
+    else:
+        alpha = make_alpha(cfg, universe, signals, data_handler)
+        if shared_inputs is not None and signals is None:
+            shared_inputs["alpha"] = alpha
     if cfg["rebalance"] == "weekly" and cfg.get("weekday") is not None:
         kwargs["rebalance_weekday"] = cfg["weekday"]
     if cfg["long_only"]:
@@ -541,7 +553,8 @@ class _UuidSeam(object):
         return getattr(self._real, name)
 
 
-def run_session(cfg, market, monitors=True, dirpath=None, shared_source=None, hooks=None, uuid_seed=0):
+def run_session(cfg, market, monitors=True, dirpath=None, shared_source=None, hooks=None, uuid_seed=0,
+                shared_inputs=None):
     """Run one real backtest.  Returns an Outcome with everything the oracles look at."""
     import gc
     gc.collect()        # whatever an earlier, already dropped session left behind is reclaimed now, not "sometime"
@@ -549,7 +562,7 @@ def run_session(cfg, market, monitors=True, dirpath=None, shared_source=None, ho
     real_uuid = _order_mod.uuid
     _order_mod.uuid = _UuidSeam(real_uuid, uuid_seed)
     try:
-        return _run_session(cfg, market, monitors, dirpath, shared_source, hooks)
+        return _run_session(cfg, market, monitors, dirpath, shared_source, hooks, shared_inputs)
     finally:
         _order_mod.uuid = real_uuid
         # collection timing of the cyclic garbage a session leaves behind would otherwise depend on the
@@ -558,7 +571,7 @@ def run_session(cfg, market, monitors=True, dirpath=None, shared_source=None, ho
         gc.collect()
 
 
-def _run_session(cfg, market, monitors, dirpath, shared_source, hooks):
+def _run_session(cfg, market, monitors, dirpath, shared_source, hooks, shared_inputs=None):
     own = dirpath is None and shared_source is None
     if own:
         dirpath = mk.scratch_dir()
@@ -571,7 +584,8 @@ def _run_session(cfg, market, monitors, dirpath, shared_source, hooks):
     out.session = None
     try:
         try:
-            session, signals, universe = build_session(cfg, dirpath, shared_source=shared_source)
+            session, signals, universe = build_session(cfg, dirpath, shared_source=shared_source,
+                                                       shared_inputs=shared_inputs)
         except Exception as e:
             out.ctor_exc = (type(e).__name__, mask_ids(str(e))[:300])
             return out
